@@ -26,6 +26,7 @@ FactsSanity == /\ <<"F", "Thing", "code", "int", "0", "1">> \in Facts(D2)
                /\ <<"P", "POST /things/{id}", "", "body", "ref:Thing", "0", "-">> \in Facts(D2)
                /\ <<"K", "Thing", "id">> \in Expected("spanner", D2) /\ <<"K", "Thing", "id">> \notin Expected("openapi3", D2)
                /\ \A f \in Expected("xsd", D2) : f[1] \in {"T", "F", "A"}
+               /\ <<"A", "Names", "string", "1">> \in Facts(D2) /\ ~\E f \in Facts(D2) : f[1] = "T" /\ f[2] = "Names"
                /\ <<"V", "Color", "RED">> \in ExpectedRead("openapi3", D2) \ Expected("openapi3", D2)
                /\ Facts(SqlDoc(D2)) \subseteq {f \in Facts(D2) : f[1] \in {"T", "F", "K"}} \cup {<<"F", "Thing", "kids", "ref:Thing", "0", "0">>}
 =============================================================================
